@@ -286,9 +286,6 @@ func judge(run *wlRun, j int, o *observation) (fails []failure, c judgeCounts) {
 			}
 			if v.LSO < v.HWM && !anyOngoing(o.Listed) {
 				c.Dontcare["lso_below_hwm_without_ongoing_txn"]++
-				if dbgLSO != nil {
-					dbgLSO(run, j, where, v, o)
-				}
 			}
 		}
 	}
@@ -391,5 +388,3 @@ func splitEpoch(d string) (epoch int, rest string) {
 	}
 	return epoch, d[:i] + d[k:]
 }
-
-var dbgLSO func(run *wlRun, j int, where string, v *partView, o *observation)
